@@ -634,8 +634,6 @@ package graphql
 // value would carry the first panic's path into every later one).
 //@ trusted fmt.Fprintln(w, a) (n, err)
 //@   pure
-//@ trusted fmt.Fprintf(w, format, a) (n, err)
-//@   pure
 //@ trusted runtime/debug.PrintStack()
 //@   pure
 //@ func DefaultRecover [C06,C04]
